@@ -48,7 +48,17 @@ E2 == L1 \cup D1small
 H2 == {t \in E2 : IsHashable(t)}
 D2 == Containers(E2, H2, {Leaf("i1"), <<"list", <<Leaf("sa")>>>>})           \* depth 2
 
-Universe == L0 \cup D1 \cup D2
+\* depth 3, targeted: unordered containers whose elements / keys are tuples MIXING frozensets, nested tuples and leaves
+\* (only partially ordered: sorting them is not canonical, the order-insensitive fallback must be taken)
+B3 == {Leaf("i1"), Leaf("sa"), <<"fset", {Leaf("i1")}>>, <<"fset", {Leaf("sa")}>>, <<"fset", {Leaf("i1"), Leaf("sa")}>>,
+       <<"tuple", <<Leaf("i1")>>>>, <<"tuple", <<Leaf("sa")>>>>}
+K3 == {<<"tuple", s>> : s \in {q \in Seqs(B3) : Len(q) >= 1}}
+P3 == {{a} : a \in K3} \cup {{a, b} : a, b \in K3}        \* (SUBSET K3 is far too large to filter)
+S3 == {T \in P3 : Distinct(T)}
+D3 == {<<"set", T>> : T \in S3} \cup {<<"fset", T>> : T \in S3}
+      \cup {<<"dict", {<<k, Leaf("i1")>> : k \in T}>> : T \in S3}
+
+Universe == L0 \cup D1 \cup D2 \cup D3
 
 VARIABLE v
 Init == v \in Universe
